@@ -8,7 +8,7 @@ import json, os, shutil, subprocess, sys
 prop, n = sys.argv[1], sys.argv[2]
 feat = sys.argv[sys.argv.index("--features") + 1] if "--features" in sys.argv else None
 reldiff = "--release-diff" in sys.argv
-src = "/tmp/sa/%s" % prop
+src = os.path.join(os.environ.get("SA_DIR", "/tmp/sa"), prop)
 patch = os.path.join(src, "patch.diff" if n == "1" else "patch%s.diff" % n)
 demo_name = ("demo_%s" if n == "1" else "demo" + n + "_%s") % prop
 demo = os.path.join(src, "tests", demo_name + ".rs")
@@ -59,13 +59,13 @@ try:
     if not ok:
         print(r1.stdout[-800:]); print(r0.stdout[-400:])
         sys.exit(1)
-    out = "/verif/seeded/sa-%s-%s" % (prop, n)
+    out = "/verif/seeded/%s-%s-%s" % (os.environ.get("SA_PREFIX", "sa"), prop, n)
     os.makedirs(out, exist_ok=True)
     shutil.copy(patch, os.path.join(out, "patch.diff"))
     shutil.copy(demo, os.path.join(out, demo_name + ".rs"))
     meta_p = os.path.join(out, "meta.json")
     meta = json.load(open(meta_p)) if os.path.exists(meta_p) else {}
-    meta.update({"id": "sa-%s-%s" % (prop, n), "origin": "independent sub-agent given only the text of %s and a scratch worktree" % prop,
+    meta.update({"id": "%s-%s-%s" % (os.environ.get("SA_PREFIX", "sa"), prop, n), "origin": "independent sub-agent given only the text of %s and a scratch worktree" % prop,
                  "breaks": [prop], "demonstration": demo_name + ".rs" + (" (features: %s)" % feat if feat else ""),
                  "confirmed": {"pinned_suite_with_change": "passed=%d failed=%d" % (bp, bf), "verdict": verdict, "commands": ran}})
     meta.setdefault("needs_to_manifest", "see the agent's report (to be filled in)")
